@@ -184,3 +184,226 @@ func recordDStar(out *core.Out, args []string, seed int64, sum *core.Summary) er
 	}
 	return nil
 }
+
+// ---- deliberate histories on grids with specification-validated heuristics ----------------
+//
+// Worlds are r x c 4-neighbour grids; every edge has a base cost in {1,2} and is either low
+// (base) or high (base+2), so costs never drop below the base cost. The heuristic is
+// Manhattan distance times the minimum base cost, or the distance in the base world, or null;
+// its table is logged in the "dnew" event and ShortestPathTrace.tla accepts it only if it is
+// consistent and dominated by the edge costs of every world of the history. Histories have the
+// form plan -> Step k times -> UpdateWorld(raise an edge of the planner's current plan, lower an
+// edge off the plan) -> Path -> ... The choice of the changes uses the planner's own answer
+// (test-input selection); nothing is judged here.
+
+func init() {
+	core.RegisterRecord("path-dstar-grid", recordDStarGrid)
+}
+
+func recordDStarGrid(out *core.Out, args []string, seed int64, sum *core.Summary) error {
+	hist, _ := strconv.Atoi(argOf(args, "hist", "1000"))
+	rounds, _ := strconv.Atoi(argOf(args, "rounds", "4"))
+	part, _ := strconv.Atoi(argOf(args, "part", "0"))
+	rng := rand.New(rand.NewSource(seed*15485863 + 17 + int64(part)*7919))
+	const limit = 30 * time.Second
+	dims := [][2]int{{2, 3}, {2, 4}, {2, 5}, {3, 3}, {3, 4}, {4, 4}}
+	heurs := []string{"manhattan", "base", "base", "manhattan", "null"}
+	for hi := 0; hi < hist; hi++ {
+		dm := dims[rng.Intn(len(dims))]
+		R, C := dm[0], dm[1]
+		n := R * C
+		heur := heurs[hi%len(heurs)]
+		type edge struct{ u, v, base, lvl int }
+		var es []edge
+		add := func(u, v int) { es = append(es, edge{u, v, 1 + rng.Intn(2), rng.Intn(2)}) }
+		for i := 0; i < R; i++ {
+			for j := 0; j < C; j++ {
+				if j+1 < C {
+					add(i*C+j, i*C+j+1)
+					add(i*C+j+1, i*C+j)
+				}
+				if i+1 < R {
+					add(i*C+j, (i+1)*C+j)
+					add((i+1)*C+j, i*C+j)
+				}
+			}
+		}
+		id := func(m int) int64 { return int64(m)*3 - 20 }
+		model := func(x int64) int64 { return (x+20)/3 + 1 }
+		cost := func(e edge) float64 { return float64(e.base + 2*e.lvl) }
+		g := simple.NewWeightedDirectedGraph(0, math.Inf(1))
+		bg := simple.NewWeightedDirectedGraph(0, math.Inf(1)) // the base world
+		minBase := 2
+		for _, e := range es {
+			g.SetWeightedEdge(simple.WeightedEdge{F: simple.Node(id(e.u)), T: simple.Node(id(e.v)), W: cost(e)})
+			bg.SetWeightedEdge(simple.WeightedEdge{F: simple.Node(id(e.u)), T: simple.Node(id(e.v)), W: float64(e.base)})
+			if e.base < minBase {
+				minBase = e.base
+			}
+		}
+		// heuristic table (integers)
+		h := make([][]int64, n)
+		var baseDist path.AllShortest
+		if heur == "base" {
+			baseDist, _ = path.FloydWarshall(bg)
+		}
+		for a := 0; a < n; a++ {
+			h[a] = make([]int64, n)
+			for b := 0; b < n; b++ {
+				switch heur {
+				case "manhattan":
+					dr, dc := a/C-b/C, a%C-b%C
+					if dr < 0 {
+						dr = -dr
+					}
+					if dc < 0 {
+						dc = -dc
+					}
+					h[a][b] = int64(minBase * (dr + dc))
+				case "base":
+					h[a][b] = int64(baseDist.Weight(id(a), id(b)))
+				}
+			}
+		}
+		hf := func(a, b graph.Node) float64 { return float64(h[model(a.ID())-1][model(b.ID())-1]) }
+		emitWorld := func(tag string) {
+			in := make([][][2]int64, n)
+			ou := make([][]int64, n)
+			for i := 0; i < n; i++ {
+				in[i], ou[i] = [][2]int64{}, []int64{}
+			}
+			for _, e := range es {
+				ou[e.u] = append(ou[e.u], int64(e.v+1))
+				in[e.v] = append(in[e.v], [2]int64{int64(e.u + 1), int64(e.base + 2*e.lvl)})
+			}
+			out.Emit(ev{"op": "graph", "r": tag, "n": n, "dir": true, "in": in, "out": ou})
+		}
+		models := func(p []graph.Node) []int64 {
+			o := make([]int64, 0, len(p))
+			for _, x := range p {
+				o = append(o, model(x.ID()))
+			}
+			return o
+		}
+		// start and goal far apart
+		t := rng.Intn(n)
+		s := t
+		best := -1
+		for _, cand := range rng.Perm(n) {
+			d := abs(cand/C-t/C) + abs(cand%C-t%C)
+			if d > best || (d == best && rng.Intn(2) == 0) {
+				best, s = d, cand
+			}
+		}
+		emitWorld("dstar-world0")
+		sum.Traces++
+		sum.Count("hist:"+heur, 1)
+		var d *dynamic.DStarLite
+		o := core.CallTimeout(limit, func() {
+			d = dynamic.NewDStarLite(simple.Node(id(s)), simple.Node(id(t)), g, hf, simple.NewWeightedDirectedGraph(0, math.Inf(1)))
+		})
+		if o.Hung || o.Panicked {
+			sum.Fail("path:DStarLite:new", fmt.Sprintf("NewDStarLite hung or panicked: %s (history %d seed %d)", o.Text, hi, seed), nil)
+			continue
+		}
+		out.Emit(ev{"op": "dnew", "r": "NewDStarLite(" + heur + ")", "h": h, "here": s + 1, "goal": t + 1})
+		var lastPath []graph.Node
+		logPath := func() bool {
+			var pw float64
+			o := core.CallTimeout(limit, func() { lastPath, pw = d.Path() })
+			if o.Hung {
+				sum.Fail("path:DStarLite:hang", fmt.Sprintf("Path() did not return (history %d seed %d)", hi, seed), nil)
+				return false
+			}
+			out.Emit(ev{"op": "dpath", "r": "DStarLite.Path", "here": model(d.Here().ID()), "goal": t + 1, "panic": o.Panicked, "w": toExt(pw), "p": models(lastPath)})
+			return !o.Panicked
+		}
+		step := func() (bool, bool) {
+			from := model(d.Here().ID())
+			var ret bool
+			o := core.CallTimeout(limit, func() { ret = d.Step() })
+			if o.Hung {
+				sum.Fail("path:DStarLite:hang", fmt.Sprintf("Step() did not return (history %d seed %d)", hi, seed), nil)
+				return false, false
+			}
+			here := from
+			if !o.Panicked {
+				here = model(d.Here().ID())
+			}
+			out.Emit(ev{"op": "dstep", "r": "DStarLite.Step", "from": from, "here": here, "goal": t + 1, "ret": ret, "panic": o.Panicked})
+			sum.Count("steps", 1)
+			return ret, !o.Panicked
+		}
+		if !logPath() {
+			continue
+		}
+		alive := true
+		for round := 0; round < rounds && alive; round++ {
+			for k := 1 + rng.Intn(2); k > 0 && alive; k-- {
+				ret, ok := step()
+				alive = ret && ok
+			}
+			if !alive || model(d.Here().ID()) == int64(t+1) {
+				break
+			}
+			if !logPath() {
+				alive = false
+				break
+			}
+			on := map[[2]int]bool{}
+			for i := 0; i+1 < len(lastPath); i++ {
+				on[[2]int{int(model(lastPath[i].ID())) - 1, int(model(lastPath[i+1].ID())) - 1}] = true
+			}
+			var ups, dns []int
+			for j, e := range es {
+				if on[[2]int{e.u, e.v}] && e.lvl == 0 {
+					ups = append(ups, j)
+				}
+				if !on[[2]int{e.u, e.v}] && e.lvl == 1 {
+					dns = append(dns, j)
+				}
+			}
+			var changes []graph.Edge
+			flip := func(j int) {
+				es[j].lvl = 1 - es[j].lvl
+				g.SetWeightedEdge(simple.WeightedEdge{F: simple.Node(id(es[j].u)), T: simple.Node(id(es[j].v)), W: cost(es[j])})
+				changes = append(changes, g.Edge(id(es[j].u), id(es[j].v)))
+			}
+			if len(ups) > 0 {
+				flip(ups[rng.Intn(len(ups))])
+			}
+			if len(dns) > 0 {
+				flip(dns[rng.Intn(len(dns))])
+			}
+			if rng.Intn(4) == 0 {
+				flip(rng.Intn(len(es)))
+			}
+			if len(changes) == 0 {
+				break
+			}
+			emitWorld("dstar-world")
+			sum.Count("updates", 1)
+			o = core.CallTimeout(limit, func() { d.UpdateWorld(changes) })
+			if o.Hung || o.Panicked {
+				sum.Fail("path:DStarLite:update", fmt.Sprintf("UpdateWorld hung or panicked: %s (history %d seed %d)", o.Text, hi, seed), nil)
+				break
+			}
+			if !logPath() {
+				break
+			}
+		}
+		// walk to the goal
+		for k := 0; k <= n && alive; k++ {
+			ret, ok := step()
+			alive = ret && ok
+		}
+	}
+	return nil
+}
+
+func abs(x int) int {
+	if x < 0 {
+		return -x
+	}
+	return x
+}
